@@ -1122,6 +1122,7 @@ func TestVerifH2(t *testing.T) {
 		nHist = int(v)
 	}
 	only := vhEnvInt("VERIF_HIST", -1)
+	vt.Watchdog(90 * time.Second)
 	if only < 0 {
 		h2RealSockets(vt)
 		vt.Flush()
